@@ -10,7 +10,7 @@ from . import common, mcommon
 ID = "C11"
 NEEDS_MODEL = True
 LEVEL = "exploration"
-N = {"quick": 480, "thorough": 24000}
+N = {"quick": 800, "thorough": 24000}
 
 
 def classify(spec, problems):
